@@ -205,6 +205,16 @@ def shapes(tier, seed):
         S.append(PairShape(sid, config=base_isa(cs), macro_src=m, expanded_src=x, expect=expect))
     for sid, m in REJECTS:
         S.append(RejectMacro('reject:' + sid, config=base_isa({}), macro_src=m, expanded_src='nop'))
+        # the same with every code of the ISA a fixed number (a code that finds its way into the step text is then text)
+        from sx.pipe import materialize
+        k = [0]
+
+        def fixed(sym):
+            if sym.name == 'o0':
+                return sym
+            k[0] += 1
+            return min(sym.hi, max(sym.lo, k[0] % 4))
+        S.append(RejectMacro('reject-fixed-codes:' + sid, config=materialize(base_isa({}), fixed), macro_src=m, expanded_src='nop'))
     return S + random_shapes(tier, seed)
 
 
